@@ -1790,7 +1790,16 @@ func (p *prover) knownCallers(fn *ssa.Function) ([]ssa.CallInstruction, bool) {
 	if p.asValue[fn] {
 		return nil, false
 	}
-	sites := p.callIdx[fn]
+	var sites []ssa.CallInstruction
+	for _, site := range p.callIdx[fn] {
+		// a synthetic wrapper (pointer-receiver / bound-method thunk) that nothing calls or references is dead
+		if w := site.Parent(); w.Synthetic != "" && !p.asValue[w] {
+			if n := p.c.P.cg.Nodes[w]; n == nil || len(n.In) == 0 {
+				continue
+			}
+		}
+		sites = append(sites, site)
+	}
 	if sites == nil {
 		sites = []ssa.CallInstruction{}
 	}
